@@ -127,8 +127,23 @@ func runUnits(cfg *Config, ld *Loaded, db *SpecDB, keys []string) []*UnitResult 
 						adoptedOrds[ord] = true
 					}
 					for _, ord := range u.orphanLoops {
-						if !adoptedOrds[ord] {
+						if adoptedOrds[ord] {
+							continue
+						}
+						// the loop is gone (e.g. replaced by a library call). Clauses that only HELPED a proof - unlabelled
+						// invariants, ghost assignments - go with it; a labelled clause, a step clause or a termination
+						// measure was a claim about the loop and is reported
+						ls := res.Spec.Loops[ord]
+						claims := len(ls.Steps) > 0 || len(ls.Foreach) > 0 || ls.Decreases != nil
+						for _, c := range ls.Invariants {
+							if c.Label != "" {
+								claims = true
+							}
+						}
+						if claims {
 							u.errs = append(u.errs, fmt.Sprintf("contract names loop %d but the function has %d loops", ord, len(eng.loopsOf(fn))))
+						} else {
+							fmt.Printf("NOTE: %s: the contract's helper invariants for loop %d were dropped: the function has %d loops\n", k, ord, len(eng.loopsOf(fn)))
 						}
 					}
 				}
